@@ -1,3 +1,1263 @@
 package main
 
-func graphemesMain(args []string) {}
+// C19: table conformance of the real String implementation against spec/text/Graphemes.tla.
+//
+// Every row of the TLC table describes one string SOURCE over the symbol alphabet of the
+// specification together with the predicted result of every operation.  The driver maps symbols to
+// code points, builds the real strings and executes the operations
+//   - directly on interpreter.StringValue (path "go"),
+//   - in Cadence scripts that receive the strings as arguments (path "args"), on both engines,
+//   - in Cadence scripts that contain the strings as literals (path "lit", a hash-selected share),
+// and reports every difference.  Before anything is judged, the alphabet mapping and the model's
+// Norm / Clusters are validated against golang.org/x/text/unicode/norm and github.com/rivo/uniseg
+// (a mismatch is a harness error: exit 2).
+
+import (
+	"encoding/json"
+	"fmt"
+	"hash/fnv"
+	"os"
+	"runtime"
+	"sort"
+	"strconv"
+	"strings"
+	"sync"
+	"sync/atomic"
+	"unicode"
+	"unicode/utf8"
+
+	"github.com/onflow/cadence"
+	"github.com/onflow/cadence/common"
+	cdcjson "github.com/onflow/cadence/encoding/json"
+	"github.com/onflow/cadence/interpreter"
+	"github.com/rivo/uniseg"
+	"golang.org/x/text/unicode/norm"
+
+	"verifharness/host"
+	"verifharness/util"
+)
+
+// ------------------------------------------------------------------ table rows
+
+type gNeedle struct {
+	N   string   `json:"n"`  // needle source (symbols)
+	Nv  string   `json:"nv"` // needle value (normalized symbols)
+	C   bool     `json:"c"`
+	I   int      `json:"i"`
+	K   int      `json:"k"`
+	Sp  []string `json:"sp"`
+	Rp  []string `json:"rp"`
+	Cmp int      `json:"cmp"`
+	Cc  string   `json:"cc"`
+	Ccl int      `json:"ccl"`
+}
+
+type gRow struct {
+	Al  string     `json:"al"`
+	S   string     `json:"s"`
+	V   string     `json:"v"`
+	Cl  []string   `json:"cl"`
+	Ix  []string   `json:"ix"`
+	Sl  [][]string `json:"sl"`
+	U8  []int      `json:"u8"`
+	Lo  string     `json:"lo"`
+	Lol int        `json:"lol"`
+	Hx  string     `json:"hx"`
+	Dh  []int      `json:"dh"`
+	Rk  int        `json:"rk"`
+	Rs  []string   `json:"rs"`
+	Nd  []gNeedle  `json:"nd"`
+}
+
+type symFacts struct {
+	CP     int    `json:"cp"`
+	Class  string `json:"class"`
+	CCC    int    `json:"ccc"`
+	Decomp string `json:"decomp"`
+	Lower  string `json:"lower"`
+	Hex    int    `json:"hex"`
+}
+
+type gFail struct {
+	Op     string `json:"op"`
+	Path   string `json:"path"`   // go | args | lit-esc | lit-raw
+	Engine string `json:"engine"` // go | interp | vm
+	Al     string `json:"al"`
+	S      string `json:"s"`
+	V      string `json:"v"`
+	N      string `json:"n,omitempty"`
+	Arg    string `json:"arg,omitempty"`
+	Want   string `json:"want"`
+	Got    string `json:"got"`
+	Dev    string `json:"dev"`   // wrong-value | fails-but-defined | succeeds-but-undefined | internal-error
+	Shape  string `json:"shape"` // class description of the case
+	Harn   bool   `json:"harness,omitempty"`
+	Cadsrc string `json:"concrete,omitempty"`
+}
+
+var (
+	symCP   = map[byte]rune{}
+	cpSym   = map[rune]byte{}
+	gOut    *util.Out
+	nGo     int64
+	nCad    int64
+	nFails  int64
+	gAlpha  map[string]symFacts
+	failMax = int64(400)
+)
+
+func conc(sym string) string {
+	var sb strings.Builder
+	for i := 0; i < len(sym); i++ {
+		r, ok := symCP[sym[i]]
+		if !ok {
+			util.Die("symbol %q of the table is not in the alphabet", sym[i])
+		}
+		sb.WriteRune(r)
+	}
+	return sb.String()
+}
+
+// abst maps a concrete string back to symbols; anything outside the alphabet is shown as <U+XXXX>.
+func abst(s string) string {
+	var sb strings.Builder
+	for len(s) > 0 {
+		r, size := utf8.DecodeRuneInString(s)
+		if r == utf8.RuneError && size <= 1 {
+			fmt.Fprintf(&sb, "<byte %02x>", s[0])
+			s = s[1:]
+			continue
+		}
+		if c, ok := cpSym[r]; ok {
+			sb.WriteByte(c)
+		} else {
+			fmt.Fprintf(&sb, "<U+%04X>", r)
+		}
+		s = s[size:]
+	}
+	return sb.String()
+}
+
+func absts(ss []string) []string {
+	out := make([]string, len(ss))
+	for i, s := range ss {
+		out[i] = abst(s)
+	}
+	return out
+}
+
+func showList(ss []string) string { return "[" + strings.Join(ss, "|") + "]" }
+
+// shapeOf describes the case semantically (for known-finding matchers and for the report).
+func shapeOf(r *gRow, n *gNeedle) string {
+	var parts []string
+	if r.S != r.V {
+		parts = append(parts, "source-not-normalized")
+	}
+	multi := false
+	for _, c := range r.Cl {
+		if len(c) > 1 {
+			multi = true
+		}
+	}
+	if multi {
+		parts = append(parts, "multi-symbol-cluster")
+	}
+	if n != nil {
+		if n.N != n.Nv {
+			parts = append(parts, "needle-not-normalized")
+		}
+		if misaligned(r, n) {
+			parts = append(parts, "misaligned-needle")
+		}
+	}
+	if len(parts) == 0 {
+		return "plain"
+	}
+	return strings.Join(parts, ",")
+}
+
+// misaligned: the needle's symbols occur in the value's symbols more often than as characters
+func misaligned(r *gRow, n *gNeedle) bool {
+	if n.Nv == "" {
+		return false
+	}
+	return strings.Count(r.V, n.Nv) > n.K || (strings.Contains(r.V, n.Nv) && !n.C)
+}
+
+func fail(f gFail) {
+	if atomic.AddInt64(&nFails, 1) > failMax {
+		return
+	}
+	gOut.Write(f)
+}
+
+func harnessFail(what string, r *gRow, want, got string) {
+	gOut.Write(gFail{Op: what, Path: "validate", Engine: "go", Al: r.Al, S: r.S, V: r.V, Want: want, Got: got, Harn: true})
+}
+
+// ------------------------------------------------------------------ alphabet validation
+
+func validateAlphabet(facts map[string]symFacts) {
+	for sym, f := range facts {
+		if len(sym) != 1 {
+			util.Die("alphabet symbol %q is not a single letter", sym)
+		}
+		symCP[sym[0]] = rune(f.CP)
+		cpSym[rune(f.CP)] = sym[0]
+	}
+	bad := func(sym string, format string, a ...any) {
+		util.Die("alphabet mapping invalid for symbol %s (U+%04X): %s", sym, facts[sym].CP, fmt.Sprintf(format, a...))
+	}
+	count := func(s string) int { return uniseg.GraphemeClusterCount(s) }
+	zwj := "\u200d"
+	for sym, f := range facts {
+		r := rune(f.CP)
+		x := string(r)
+		p := norm.NFC.PropertiesString(x)
+		if int(p.CCC()) != f.CCC {
+			bad(sym, "combining class %d, specification says %d", p.CCC(), f.CCC)
+		}
+		if got := abst(norm.NFD.String(x)); got != f.Decomp {
+			bad(sym, "canonical decomposition %s, specification says %s", got, f.Decomp)
+		}
+		if got := abst(strings.ToLower(x)); got != f.Lower {
+			bad(sym, "lower case %s, specification says %s", got, f.Lower)
+		}
+		hv := -1
+		if v, err := strconv.ParseUint(x, 16, 8); err == nil && len(x) == 1 {
+			hv = int(v)
+		}
+		if hv != f.Hex {
+			bad(sym, "hex digit value %d, specification says %d", hv, f.Hex)
+		}
+		ok := true
+		switch f.Class {
+		case "Base":
+			ok = unicode.IsLetter(r) && f.Decomp == sym && count("b"+x) == 2 && count(x+"b") == 2
+		case "Precomposed":
+			ok = unicode.IsLetter(r) && f.Decomp != sym && count("b"+x) == 2 && count(x+"b") == 2
+		case "Extend":
+			ok = (unicode.Is(unicode.Mn, r) || unicode.Is(unicode.Me, r)) && count("b"+x) == 1 && count("\r"+x) == 2
+		case "ZWJ":
+			ok = r == 0x200D && unicode.Is(unicode.Join_Control, r) && count("b"+x) == 1
+		case "ExtPict":
+			// GB11 holds for it and not for a letter
+			ok = count(x+zwj+x) == 1 && count("b"+zwj+"b") == 2 && count(x+x) == 2
+		case "RI":
+			ok = unicode.Is(unicode.Regional_Indicator, r) && count(x+x) == 1 && count(x+x+x) == 2
+		case "CR":
+			ok = r == '\r'
+		case "LF":
+			ok = r == '\n'
+		case "L":
+			ok = unicode.Is(unicode.Hangul, r) && r >= 0x1100 && r <= 0x115F
+		case "V":
+			ok = unicode.Is(unicode.Hangul, r) && r >= 0x1160 && r <= 0x11A7
+		case "T":
+			ok = unicode.Is(unicode.Hangul, r) && r >= 0x11A8 && r <= 0x11FF
+		case "LV":
+			ok = r >= 0xAC00 && r <= 0xD7A3 && (r-0xAC00)%28 == 0
+		case "LVT":
+			ok = r >= 0xAC00 && r <= 0xD7A3 && (r-0xAC00)%28 != 0
+		default:
+			bad(sym, "unknown class %s", f.Class)
+		}
+		if !ok {
+			bad(sym, "the code point does not have class %s according to unicode / x/text / uniseg", f.Class)
+		}
+	}
+}
+
+func unisegClusters(s string) []string {
+	var out []string
+	g := uniseg.NewGraphemes(s)
+	for g.Next() {
+		out = append(out, g.Str())
+	}
+	return out
+}
+
+// validateRow: the model's Norm and Clusters agree with the reference libraries on this row.
+func validateRow(r *gRow) bool {
+	ok := true
+	src := conc(r.S)
+	if got := abst(norm.NFC.String(src)); got != r.V {
+		harnessFail("model-norm-vs-x/text", r, r.V, got)
+		ok = false
+	}
+	if got := absts(unisegClusters(conc(r.V))); showList(got) != showList(r.Cl) {
+		harnessFail("model-clusters-vs-uniseg", r, showList(r.Cl), showList(got))
+		ok = false
+	}
+	u8 := []byte(conc(r.V))
+	if len(u8) != len(r.U8) {
+		harnessFail("model-utf8", r, fmt.Sprint(r.U8), fmt.Sprint(u8))
+		ok = false
+	} else {
+		for i := range u8 {
+			if int(u8[i]) != r.U8[i] {
+				harnessFail("model-utf8", r, fmt.Sprint(r.U8), fmt.Sprint(u8))
+				ok = false
+				break
+			}
+		}
+	}
+	for i := range r.Nd {
+		n := &r.Nd[i]
+		if got := abst(norm.NFC.String(conc(n.N))); got != n.Nv {
+			harnessFail("model-norm-vs-x/text(needle "+n.N+")", r, n.Nv, got)
+			ok = false
+		}
+	}
+	return ok
+}
+
+// ------------------------------------------------------------------ direct StringValue calls
+
+type apiWorker struct {
+	inter *interpreter.Interpreter
+}
+
+func newAPIWorker() *apiWorker {
+	inter, err := interpreter.NewInterpreter(nil, common.ScriptLocation{}, &interpreter.Config{
+		Storage: interpreter.NewInMemoryStorage(nil, nil),
+	})
+	if err != nil {
+		util.Die("NewInterpreter: %v", err)
+	}
+	return &apiWorker{inter: inter}
+}
+
+// try runs f; a Go panic is turned into its error class ("user:<T>", "internal:<T>", "crash").
+func try(f func()) (class string) {
+	defer func() {
+		if r := recover(); r != nil {
+			if e, ok := r.(error); ok {
+				class = host.Classify(e)
+				if class == "ok" {
+					class = "crash"
+				}
+			} else {
+				class = "crash"
+			}
+		}
+	}()
+	f()
+	return "ok"
+}
+
+func strArray(inter *interpreter.Interpreter, v interpreter.Value) []string {
+	arr := v.(*interpreter.ArrayValue)
+	var out []string
+	arr.Iterate(inter, func(e interpreter.Value) bool {
+		out = append(out, e.(*interpreter.StringValue).Str)
+		return true
+	}, false)
+	return out
+}
+
+type judge struct {
+	r      *gRow
+	path   string
+	engine string
+}
+
+// outcome compares an observed outcome (class, value) with the predicted one ("!" = fails).
+func (j judge) outcome(op string, n *gNeedle, arg string, want string, class string, got string) {
+	nn := ""
+	if n != nil {
+		nn = n.N
+	}
+	f := gFail{Op: op, Path: j.path, Engine: j.engine, Al: j.r.Al, S: j.r.S, V: j.r.V, N: nn, Arg: arg, Want: want, Shape: shapeOf(j.r, n)}
+	switch {
+	case host.IsInternal(class):
+		f.Got, f.Dev = class, "internal-error"
+	case class != "ok" && !strings.HasPrefix(class, "user:"):
+		f.Got, f.Dev = class, "internal-error"
+	case class != "ok" && want != "!":
+		f.Got, f.Dev = class, "fails-but-defined"
+	case class == "ok" && want == "!":
+		f.Got, f.Dev = got, "succeeds-but-undefined"
+	case class == "ok" && want != got:
+		f.Got, f.Dev = got, "wrong-value"
+	default:
+		return
+	}
+	fail(f)
+}
+
+func cmpFlags(c int) string {
+	// == != < <= > >=
+	switch {
+	case c == 0:
+		return "TFFTFT"
+	case c < 0:
+		return "FTTTFF"
+	}
+	return "FTFFTT"
+}
+
+func tf(b bool) byte {
+	if b {
+		return 'T'
+	}
+	return 'F'
+}
+
+func (w *apiWorker) checkRow(r *gRow) {
+	inter := w.inter
+	j := judge{r: r, path: "go", engine: "go"}
+	src := conc(r.S)
+	n := len(r.Cl)
+	v := interpreter.NewUnmeteredStringValue(src) // one value reused by all operations (the cached iterator is shared)
+	fresh := func() *interpreter.StringValue { return interpreter.NewUnmeteredStringValue(src) }
+	ev := func(k int) { atomic.AddInt64(&nGo, int64(k)) }
+
+	j.outcome("normalize", nil, "", r.V, "ok", abst(v.Str))
+	var got string
+	cl := try(func() { got = strconv.Itoa(fresh().Length(inter)) })
+	j.outcome("length", nil, "", strconv.Itoa(n), cl, got)
+	// iteration
+	var chars []string
+	cl = try(func() {
+		it := fresh().Iterator(inter)
+		for {
+			x := it.Next(inter)
+			if x == nil {
+				break
+			}
+			chars = append(chars, x.(interpreter.CharacterValue).Str)
+		}
+	})
+	j.outcome("iterate", nil, "", showList(r.Cl), cl, showList(absts(chars)))
+	chars = nil
+	cl = try(func() {
+		v.ForEach(inter, nil, func(x interpreter.Value) bool {
+			chars = append(chars, x.(interpreter.CharacterValue).Str)
+			return true
+		}, false)
+	})
+	j.outcome("forEach", nil, "", showList(r.Cl), cl, showList(absts(chars)))
+	ev(4)
+	// indexing, slicing: every index in -1..n, every pair of bounds in -1..n+1
+	for i := -1; i <= n; i++ {
+		cl = try(func() {
+			got = abst(v.GetKey(inter, interpreter.NewUnmeteredIntValueFromInt64(int64(i))).(interpreter.CharacterValue).Str)
+		})
+		j.outcome("index", nil, strconv.Itoa(i), r.Ix[i+1], cl, got)
+	}
+	ev(n + 2)
+	for f := -1; f <= n+1; f++ {
+		for t := -1; t <= n+1; t++ {
+			cl = try(func() {
+				got = abst(v.Slice(inter, interpreter.NewUnmeteredIntValueFromInt64(int64(f)), interpreter.NewUnmeteredIntValueFromInt64(int64(t))).(*interpreter.StringValue).Str)
+			})
+			j.outcome("slice", nil, fmt.Sprintf("%d,%d", f, t), r.Sl[f+1][t+1], cl, got)
+		}
+	}
+	ev((n + 3) * (n + 3))
+	// toLower, utf8, hex
+	var lol int
+	cl = try(func() { l := v.ToLower(inter); got = abst(l.Str); lol = l.Length(inter) })
+	j.outcome("toLower", nil, "", r.Lo, cl, got)
+	if cl == "ok" {
+		j.outcome("toLower.length", nil, "", strconv.Itoa(r.Lol), cl, strconv.Itoa(lol))
+	}
+	var bs []byte
+	cl = try(func() {
+		arr := v.GetMember(inter, "utf8", common.DeclarationKindField, nil)
+		bs, _ = interpreter.ByteArrayValueToByteSlice(inter, arr)
+		got = fmt.Sprint(toInts(bs))
+	})
+	j.outcome("utf8", nil, "", fmt.Sprint(r.U8), cl, got)
+	cl = try(func() {
+		got = interpreter.StringFunctionEncodeHex(inter, interpreter.ByteSliceToByteArrayValue(inter, []byte(conc(r.V)))).(*interpreter.StringValue).Str
+	})
+	j.outcome("encodeHex", nil, "", r.Hx, cl, got)
+	wantDh := fmt.Sprint(r.Dh)
+	if len(r.Dh) == 1 && r.Dh[0] < 0 {
+		wantDh = "!"
+	}
+	cl = try(func() {
+		b, _ := interpreter.ByteArrayValueToByteSlice(inter, v.DecodeHex(inter))
+		got = fmt.Sprint(toInts(b))
+	})
+	j.outcome("decodeHex", nil, "", wantDh, cl, got)
+	cl = try(func() {
+		got = abst(interpreter.StringFunctionFromUtf8(inter, interpreter.ByteSliceToByteArrayValue(inter, []byte(src))).(*interpreter.SomeValue).InnerValue().(*interpreter.StringValue).Str)
+	})
+	j.outcome("fromUTF8(source bytes)", nil, "", r.V, cl, got)
+	ev(6)
+
+	repl := make([]*interpreter.StringValue, len(r.Rs))
+	for i, s := range r.Rs {
+		repl[i] = interpreter.NewUnmeteredStringValue(conc(s))
+	}
+	for ni := range r.Nd {
+		nd := &r.Nd[ni]
+		nv := interpreter.NewUnmeteredStringValue(conc(nd.N))
+		// on the shared value and on a fresh one (the search mutates the cached grapheme iterator)
+		for _, hv := range []*interpreter.StringValue{v, fresh()} {
+			cl = try(func() { got = string(tf(bool(hv.Contains(inter, nv)))) })
+			j.outcome("contains", nd, "", string(tf(nd.C)), cl, got)
+			cl = try(func() { got = hv.IndexOf(inter, nv).String() })
+			j.outcome("index(of:)", nd, "", strconv.Itoa(nd.I), cl, got)
+			cl = try(func() { got = hv.Count(inter, nv).String() })
+			j.outcome("count", nd, "", strconv.Itoa(nd.K), cl, got)
+		}
+		var parts *interpreter.ArrayValue
+		cl = try(func() { parts = v.Split(inter, nv); got = showList(absts(strArray(inter, parts))) })
+		j.outcome("split", nd, "", showList(nd.Sp), cl, got)
+		for ri, rv := range repl {
+			cl = try(func() { got = abst(v.ReplaceAll(inter, nv, rv).Str) })
+			j.outcome("replaceAll", nd, r.Rs[ri], nd.Rp[ri], cl, got)
+			if parts != nil {
+				cl = try(func() { got = abst(interpreter.StringFunctionJoin(inter, parts, rv).(*interpreter.StringValue).Str) })
+				j.outcome("join(split)", nd, r.Rs[ri], nd.Rp[ri], cl, got)
+			}
+		}
+		var ccl int
+		cl = try(func() { c := v.Concat(inter, nv).(*interpreter.StringValue); got = abst(c.Str); ccl = c.Length(inter) })
+		j.outcome("concat", nd, "", nd.Cc, cl, got)
+		if cl == "ok" {
+			j.outcome("concat.length", nd, "", strconv.Itoa(nd.Ccl), cl, strconv.Itoa(ccl))
+		}
+		cl = try(func() {
+			got = string([]byte{tf(v.Equal(inter, nv)), tf(!v.Equal(inter, nv)), tf(bool(v.Less(inter, nv))), tf(bool(v.LessEqual(inter, nv))),
+				tf(bool(v.Greater(inter, nv))), tf(bool(v.GreaterEqual(inter, nv)))})
+		})
+		j.outcome("compare", nd, "", cmpFlags(nd.Cmp), cl, got)
+		ev(6 + 1 + 2*len(repl) + 2 + 6)
+	}
+	// concatenation law bound to the code: every two-part cut of the source concatenates to the value
+	rs := []rune(src)
+	for k := 0; k <= len(rs); k++ {
+		a := interpreter.NewUnmeteredStringValue(string(rs[:k]))
+		b := interpreter.NewUnmeteredStringValue(string(rs[k:]))
+		var ccl int
+		cl = try(func() { c := a.Concat(inter, b).(*interpreter.StringValue); got = abst(c.Str); ccl = c.Length(inter) })
+		j.outcome("concat(cut source)", nil, strconv.Itoa(k), r.V, cl, got)
+		if cl == "ok" {
+			j.outcome("concat(cut source).length", nil, strconv.Itoa(k), strconv.Itoa(n), cl, strconv.Itoa(ccl))
+		}
+	}
+	ev(len(rs) + 1)
+}
+
+func toInts(b []byte) []int {
+	out := make([]int, len(b))
+	for i, x := range b {
+		out[i] = int(x)
+	}
+	return out
+}
+
+// ------------------------------------------------------------------ Cadence scripts
+
+const scriptBody = `
+    let out: [[AnyStruct]] = []
+    var k = 0
+    while k < ss.length {
+        let s = ss[k]
+        let len = s.length
+        let chars: [String] = []
+        let cs: [Character] = []
+        for c in s { chars.append(c.toString()); cs.append(c) }
+        let ix: [String] = []
+        var i = 0
+        while i < len { ix.append(s[i].toString()); i = i + 1 }
+        let sl: [String] = []
+        var f = 0
+        while f <= len {
+            var t = f
+            while t <= len { sl.append(s.slice(from: f, upTo: t)); t = t + 1 }
+            f = f + 1
+        }
+        let nres: [[AnyStruct]] = []
+        for n in nds[k] {
+            let sp = s.split(separator: n)
+            let rp: [String] = []
+            let jn: [String] = []
+            for r in rps[k] {
+                rp.append(s.replaceAll(of: n, with: r))
+                jn.append(String.join(sp, separator: r))
+            }
+            let cc = s.concat(n)
+            nres.append([s.contains(n), s.index(of: n), s.count(n), sp, rp, jn, cc, cc.length,
+                         [s == n, s != n, s < n, s <= n, s > n, s >= n]])
+        }
+        let lo = s.toLower()
+        var dh: [UInt8] = []
+        if dhok[k] { dh = s.decodeHex() }
+        let cuts: [String] = []
+        let cutlens: [Int] = []
+        var c = 0
+        while c < cutl[k].length {
+            let x = cutl[k][c].concat(cutr[k][c])
+            cuts.append(x)
+            cutlens.append(x.length)
+            c = c + 1
+        }
+        out.append([s, len, chars, ix, sl, s.utf8, lo, lo.length, String.encodeHex(s.utf8), dh,
+                    String.fromUTF8(s.utf8)!, String.fromCharacters(cs), nres, cuts, cutlens])
+        k = k + 1
+    }
+    return out
+}
+`
+
+const argsHeader = `access(all) fun main(ss: [String], nds: [[String]], rps: [[String]], dhok: [Bool], cutl: [[String]], cutr: [[String]]): [[AnyStruct]] {`
+
+func cdcString(s string) cadence.Value {
+	v, err := cadence.NewString(s)
+	if err != nil {
+		util.Die("cadence.NewString(%q): %v", s, err)
+	}
+	return v
+}
+
+func cdcStrings(ss []string) cadence.Value {
+	vs := make([]cadence.Value, len(ss))
+	for i, s := range ss {
+		vs[i] = cdcString(s)
+	}
+	return cadence.NewArray(vs)
+}
+
+func cdcNested(sss [][]string) cadence.Value {
+	vs := make([]cadence.Value, len(sss))
+	for i, ss := range sss {
+		vs[i] = cdcStrings(ss)
+	}
+	return cadence.NewArray(vs)
+}
+
+func encodeArg(v cadence.Value) []byte {
+	b, err := cdcjson.Encode(v)
+	if err != nil {
+		util.Die("encode argument: %v", err)
+	}
+	return b
+}
+
+func litEsc(s string) string {
+	var sb strings.Builder
+	sb.WriteByte('"')
+	for _, r := range s {
+		fmt.Fprintf(&sb, `\u{%x}`, r)
+	}
+	sb.WriteByte('"')
+	return sb.String()
+}
+
+func litRaw(s string) string {
+	var sb strings.Builder
+	sb.WriteByte('"')
+	for _, r := range s {
+		switch r {
+		case '\r':
+			sb.WriteString(`\r`)
+		case '\n':
+			sb.WriteString(`\n`)
+		default:
+			sb.WriteRune(r)
+		}
+	}
+	sb.WriteByte('"')
+	return sb.String()
+}
+
+func litList(ss []string, lit func(string) string) string {
+	parts := make([]string, len(ss))
+	for i, s := range ss {
+		parts[i] = lit(s)
+	}
+	return "[" + strings.Join(parts, ", ") + "]"
+}
+
+func litNested(sss [][]string, lit func(string) string) string {
+	parts := make([]string, len(sss))
+	for i, ss := range sss {
+		parts[i] = litList(ss, lit)
+	}
+	return "[" + strings.Join(parts, ",\n        ") + "]"
+}
+
+type batchInputs struct {
+	ss   []string
+	nds  [][]string
+	rps  [][]string
+	dhok []bool
+	cutl [][]string
+	cutr [][]string
+}
+
+func inputsOf(rows []*gRow) batchInputs {
+	var in batchInputs
+	for _, r := range rows {
+		src := conc(r.S)
+		in.ss = append(in.ss, src)
+		nd := make([]string, len(r.Nd))
+		for i := range r.Nd {
+			nd[i] = conc(r.Nd[i].N)
+		}
+		in.nds = append(in.nds, nd)
+		rp := make([]string, len(r.Rs))
+		for i := range r.Rs {
+			rp[i] = conc(r.Rs[i])
+		}
+		in.rps = append(in.rps, rp)
+		in.dhok = append(in.dhok, !(len(r.Dh) == 1 && r.Dh[0] < 0))
+		rs := []rune(src)
+		var l, rr []string
+		for k := 0; k <= len(rs); k++ {
+			l = append(l, string(rs[:k]))
+			rr = append(rr, string(rs[k:]))
+		}
+		in.cutl = append(in.cutl, l)
+		in.cutr = append(in.cutr, rr)
+	}
+	return in
+}
+
+func toGo(v cadence.Value) any {
+	switch x := v.(type) {
+	case cadence.String:
+		return string(x)
+	case cadence.Character:
+		return string(x)
+	case cadence.Bool:
+		return bool(x)
+	case cadence.Int:
+		return x.Int()
+	case cadence.UInt8:
+		return int(x)
+	case cadence.Optional:
+		if x.Value == nil {
+			return nil
+		}
+		return toGo(x.Value)
+	case cadence.Array:
+		out := make([]any, len(x.Values))
+		for i, e := range x.Values {
+			out[i] = toGo(e)
+		}
+		return out
+	}
+	util.Die("unexpected script result value %T", v)
+	return nil
+}
+
+func anyStrings(v any) []string {
+	a := v.([]any)
+	out := make([]string, len(a))
+	for i, e := range a {
+		out[i] = e.(string)
+	}
+	return out
+}
+
+func anyInts(v any) []int {
+	a := v.([]any)
+	out := make([]int, len(a))
+	for i, e := range a {
+		out[i] = e.(int)
+	}
+	return out
+}
+
+// judgeScriptRow compares the script's result for one row with the prediction.
+func judgeScriptRow(j judge, res []any) {
+	r := j.r
+	n := len(r.Cl)
+	ok := "ok"
+	j.outcome("normalize", nil, "", r.V, ok, abst(res[0].(string)))
+	j.outcome("length", nil, "", strconv.Itoa(n), ok, strconv.Itoa(res[1].(int)))
+	j.outcome("iterate", nil, "", showList(r.Cl), ok, showList(absts(anyStrings(res[2]))))
+	j.outcome("index", nil, "0..len-1", showList(r.Ix[1:len(r.Ix)-1]), ok, showList(absts(anyStrings(res[3]))))
+	var wantSl []string
+	for f := 0; f <= n; f++ {
+		for t := f; t <= n; t++ {
+			wantSl = append(wantSl, r.Sl[f+1][t+1])
+		}
+	}
+	j.outcome("slice", nil, "all 0<=from<=upTo<=len", showList(wantSl), ok, showList(absts(anyStrings(res[4]))))
+	j.outcome("utf8", nil, "", fmt.Sprint(r.U8), ok, fmt.Sprint(anyInts(res[5])))
+	j.outcome("toLower", nil, "", r.Lo, ok, abst(res[6].(string)))
+	j.outcome("toLower.length", nil, "", strconv.Itoa(r.Lol), ok, strconv.Itoa(res[7].(int)))
+	j.outcome("encodeHex", nil, "", r.Hx, ok, res[8].(string))
+	if !(len(r.Dh) == 1 && r.Dh[0] < 0) {
+		j.outcome("decodeHex", nil, "", fmt.Sprint(r.Dh), ok, fmt.Sprint(anyInts(res[9])))
+	}
+	j.outcome("fromUTF8(utf8)", nil, "", r.V, ok, abst(res[10].(string)))
+	j.outcome("fromCharacters(iterate)", nil, "", r.V, ok, abst(res[11].(string)))
+	nres := res[12].([]any)
+	if len(nres) != len(r.Nd) {
+		util.Die("script returned %d needle results for %d needles", len(nres), len(r.Nd))
+	}
+	for i := range r.Nd {
+		nd := &r.Nd[i]
+		x := nres[i].([]any)
+		j.outcome("contains", nd, "", string(tf(nd.C)), ok, string(tf(x[0].(bool))))
+		j.outcome("index(of:)", nd, "", strconv.Itoa(nd.I), ok, strconv.Itoa(x[1].(int)))
+		j.outcome("count", nd, "", strconv.Itoa(nd.K), ok, strconv.Itoa(x[2].(int)))
+		j.outcome("split", nd, "", showList(nd.Sp), ok, showList(absts(anyStrings(x[3]))))
+		rp := absts(anyStrings(x[4]))
+		jn := absts(anyStrings(x[5]))
+		for ri := range r.Rs {
+			j.outcome("replaceAll", nd, r.Rs[ri], nd.Rp[ri], ok, rp[ri])
+			j.outcome("join(split)", nd, r.Rs[ri], nd.Rp[ri], ok, jn[ri])
+		}
+		j.outcome("concat", nd, "", nd.Cc, ok, abst(x[6].(string)))
+		j.outcome("concat.length", nd, "", strconv.Itoa(nd.Ccl), ok, strconv.Itoa(x[7].(int)))
+		fl := x[8].([]any)
+		b := make([]byte, len(fl))
+		for k := range fl {
+			b[k] = tf(fl[k].(bool))
+		}
+		j.outcome("compare", nd, "", cmpFlags(nd.Cmp), ok, string(b))
+	}
+	cuts := absts(anyStrings(res[13]))
+	cutlens := anyInts(res[14])
+	for k := range cuts {
+		j.outcome("concat(cut source)", nil, strconv.Itoa(k), r.V, ok, cuts[k])
+		j.outcome("concat(cut source).length", nil, strconv.Itoa(k), strconv.Itoa(n), ok, strconv.Itoa(cutlens[k]))
+	}
+}
+
+func evalsOfRow(r *gRow) int {
+	n := len(r.Cl)
+	return 12 + n + (n+1)*(n+2)/2 + len(r.Nd)*(6+2*len(r.Rs)+6) + 2*(len(r.S)+1)
+}
+
+// runBatch executes one batch on one engine through one path; when the whole batch fails (a predicted-
+// defined operation aborted the script), the rows are re-run one by one to find the row, and that row is
+// reported as "fails-but-defined" (user error) or "internal-error".
+func runBatch(rows []*gRow, path string, useVM bool) {
+	engine := "interp"
+	if useVM {
+		engine = "vm"
+	}
+	in := inputsOf(rows)
+	var src string
+	var args [][]byte
+	switch path {
+	case "args":
+		src = argsHeader + scriptBody
+		dh := make([]cadence.Value, len(in.dhok))
+		for i, b := range in.dhok {
+			dh[i] = cadence.NewBool(b)
+		}
+		args = [][]byte{encodeArg(cdcStrings(in.ss)), encodeArg(cdcNested(in.nds)), encodeArg(cdcNested(in.rps)),
+			encodeArg(cadence.NewArray(dh)), encodeArg(cdcNested(in.cutl)), encodeArg(cdcNested(in.cutr))}
+	default:
+		lit := litEsc
+		if path == "lit-raw" {
+			lit = litRaw
+		}
+		dh := make([]string, len(in.dhok))
+		for i, b := range in.dhok {
+			dh[i] = strconv.FormatBool(b)
+		}
+		src = "access(all) fun main(): [[AnyStruct]] {\n" +
+			"    let ss: [String] = " + litList(in.ss, lit) + "\n" +
+			"    let nds: [[String]] = " + litNested(in.nds, lit) + "\n" +
+			"    let rps: [[String]] = " + litNested(in.rps, lit) + "\n" +
+			"    let dhok: [Bool] = [" + strings.Join(dh, ", ") + "]\n" +
+			"    let cutl: [[String]] = " + litNested(in.cutl, lit) + "\n" +
+			"    let cutr: [[String]] = " + litNested(in.cutr, lit) + "\n" + scriptBody
+	}
+	w := host.NewWorld()
+	res := w.Script(src, useVM, args...)
+	if res.Class == "ok" {
+		out := toGo(res.Value).([]any)
+		if len(out) != len(rows) {
+			util.Die("script returned %d rows for %d", len(out), len(rows))
+		}
+		for i, r := range rows {
+			judgeScriptRow(judge{r: r, path: path, engine: engine}, out[i].([]any))
+			atomic.AddInt64(&nCad, int64(evalsOfRow(r)))
+		}
+		return
+	}
+	if strings.HasPrefix(res.Class, "user:CheckerError") || strings.HasPrefix(res.Class, "user:ParserError") || strings.Contains(res.Class, "ParsingCheckingError") {
+		util.Die("generated script rejected (%s): %v\n%s", res.Class, res.Err, clip(src, 3000))
+	}
+	if len(rows) == 1 {
+		r := rows[0]
+		dev := "fails-but-defined"
+		if host.IsInternal(res.Class) || !strings.HasPrefix(res.Class, "user:") {
+			dev = "internal-error"
+		}
+		fail(gFail{Op: "script-of-defined-operations", Path: path, Engine: engine, Al: r.Al, S: r.S, V: r.V, Want: "all operations of the row succeed",
+			Got: res.Class + ": " + clip(fmt.Sprint(res.Err), 300), Dev: dev, Shape: shapeOf(r, nil)})
+		return
+	}
+	for _, r := range rows {
+		runBatch([]*gRow{r}, path, useVM)
+	}
+}
+
+func clip(s string, n int) string {
+	if len(s) > n {
+		return s[:n] + "..."
+	}
+	return s
+}
+
+// predicted failures: one script per failing call (a failure aborts the script), hash-selected share
+func runFailing(r *gRow, share uint32) {
+	n := len(r.Cl)
+	type one struct {
+		op, arg, src string
+	}
+	var cases []one
+	s := litEsc(conc(r.S))
+	for _, i := range []int{-1, n} {
+		cases = append(cases, one{"index", strconv.Itoa(i), fmt.Sprintf("access(all) fun main(): String { let s = %s\n return s[%d].toString() }", s, i)})
+	}
+	for f := -1; f <= n+1; f++ {
+		for t := -1; t <= n+1; t++ {
+			if r.Sl[f+1][t+1] == "!" {
+				cases = append(cases, one{"slice", fmt.Sprintf("%d,%d", f, t), fmt.Sprintf("access(all) fun main(): String { let s = %s\n return s.slice(from: %d, upTo: %d) }", s, f, t)})
+			}
+		}
+	}
+	if len(r.Dh) == 1 && r.Dh[0] < 0 {
+		cases = append(cases, one{"decodeHex", "", fmt.Sprintf("access(all) fun main(): [UInt8] { let s = %s\n return s.decodeHex() }", s)})
+	}
+	for _, c := range cases {
+		h := fnv.New32a()
+		h.Write([]byte(r.S + "/" + c.op + "/" + c.arg))
+		if share > 1 && h.Sum32()%share != 0 {
+			continue
+		}
+		for _, vm := range []bool{false, true} {
+			engine := "interp"
+			if vm {
+				engine = "vm"
+			}
+			w := host.NewWorld()
+			res := w.Script(c.src, vm)
+			if strings.Contains(res.Class, "CheckerError") || strings.Contains(res.Class, "ParserError") || strings.Contains(res.Class, "ParsingCheckingError") {
+				util.Die("generated script rejected (%s): %v\n%s", res.Class, res.Err, c.src)
+			}
+			got := ""
+			if res.Class == "ok" {
+				got = fmt.Sprint(res.Value)
+			}
+			judge{r: r, path: "lit-esc", engine: engine}.outcome(c.op, nil, c.arg, "!", res.Class, got)
+			atomic.AddInt64(&nCad, 1)
+		}
+	}
+}
+
+// ------------------------------------------------------------------ ordering by ranks
+
+const rankScript = `access(all) fun main(ss: [String]): [UInt8] {
+    let out: [UInt8] = []
+    for a in ss {
+        for b in ss {
+            var m: UInt8 = 0
+            if a == b { m = m + 1 }
+            if a != b { m = m + 2 }
+            if a < b { m = m + 4 }
+            if a <= b { m = m + 8 }
+            if a > b { m = m + 16 }
+            if a >= b { m = m + 32 }
+            out.append(m)
+        }
+    }
+    return out
+}`
+
+func rankMask(ra, rb int) int {
+	switch {
+	case ra == rb:
+		return 1 + 8 + 32
+	case ra < rb:
+		return 2 + 4 + 8
+	}
+	return 2 + 16 + 32
+}
+
+func checkRanks(rows []*gRow) int {
+	if len(rows) == 0 {
+		return 0
+	}
+	sort.Slice(rows, func(i, j int) bool { return rows[i].S < rows[j].S })
+	report := func(engine, path string, a, b *gRow, want, got int) {
+		fail(gFail{Op: "order-by-rank", Path: path, Engine: engine, Al: a.Al, S: a.S, V: a.V, N: b.S,
+			Want: fmt.Sprintf("mask %06b (== != < <= > >= from low bit; ranks %d, %d)", want, a.Rk, b.Rk), Got: fmt.Sprintf("mask %06b", got),
+			Dev: "wrong-value", Shape: shapeOf(a, nil)})
+	}
+	// direct
+	inter := newAPIWorker().inter
+	vals := make([]*interpreter.StringValue, len(rows))
+	ss := make([]string, len(rows))
+	for i, r := range rows {
+		ss[i] = conc(r.S)
+		vals[i] = interpreter.NewUnmeteredStringValue(ss[i])
+	}
+	for i, a := range vals {
+		for k, b := range vals {
+			m := 0
+			if a.Equal(inter, b) {
+				m |= 1
+			} else {
+				m |= 2
+			}
+			if a.Less(inter, b) {
+				m |= 4
+			}
+			if a.LessEqual(inter, b) {
+				m |= 8
+			}
+			if a.Greater(inter, b) {
+				m |= 16
+			}
+			if a.GreaterEqual(inter, b) {
+				m |= 32
+			}
+			if want := rankMask(rows[i].Rk, rows[k].Rk); want != m {
+				report("go", "go", rows[i], rows[k], want, m)
+			}
+		}
+	}
+	atomic.AddInt64(&nGo, int64(6*len(rows)*len(rows)))
+	for _, vm := range []bool{false, true} {
+		engine := "interp"
+		if vm {
+			engine = "vm"
+		}
+		w := host.NewWorld()
+		res := w.Script(rankScript, vm, encodeArg(cdcStrings(ss)))
+		if res.Class != "ok" {
+			util.Die("rank script failed: %s %v", res.Class, res.Err)
+		}
+		out := anyInts(toGo(res.Value))
+		if len(out) != len(rows)*len(rows) {
+			util.Die("rank script returned %d results", len(out))
+		}
+		for i := range rows {
+			for k := range rows {
+				if want := rankMask(rows[i].Rk, rows[k].Rk); want != out[i*len(rows)+k] {
+					report(engine, "args", rows[i], rows[k], want, out[i*len(rows)+k])
+				}
+			}
+		}
+		atomic.AddInt64(&nCad, int64(6*len(rows)*len(rows)))
+	}
+	return len(rows) * len(rows)
+}
+
+// ------------------------------------------------------------------ conventions for empty needles (recorded, not judged)
+
+func emptyConventions(rows []*gRow) map[string]any {
+	inter := newAPIWorker().inter
+	empty := interpreter.NewUnmeteredStringValue("")
+	tally := map[string]int{}
+	total := 0
+	for _, r := range rows {
+		if total >= 3000 {
+			break
+		}
+		total++
+		v := interpreter.NewUnmeteredStringValue(conc(r.S))
+		n := len(r.Cl)
+		cl := try(func() {
+			if bool(v.Contains(inter, empty)) {
+				tally["contains(\"\") = true"]++
+			}
+			if v.IndexOf(inter, empty).String() == "0" {
+				tally["index(of: \"\") = 0"]++
+			}
+			if v.Count(inter, empty).String() == strconv.Itoa(n+1) {
+				tally["count(\"\") = length + 1"]++
+			}
+			if showList(absts(strArray(inter, v.Split(inter, empty)))) == showList(r.Cl) {
+				tally["split(separator: \"\") = the characters"]++
+			}
+			if v.ReplaceAll(inter, empty, empty).Str == v.Str {
+				tally["replaceAll(of: \"\", with: \"\") = the string"]++
+			}
+		})
+		if cl != "ok" {
+			tally["an operation with an empty needle failed: "+cl]++
+		}
+	}
+	out := map[string]any{"strings_observed": total}
+	for k, v := range tally {
+		out[k] = v
+	}
+	return out
+}
+
+// ------------------------------------------------------------------ main
+
+func graphemesMain(args []string) {
+	if len(args) < 2 {
+		util.Die("usage: strings graphemes <out.ndjson> <table>... [batch=N] [litshare=N] [failshare=N] [workers=N]")
+	}
+	gOut = util.NewOut(args[0])
+	defer gOut.Close()
+	batch, litShare, failShare, workers := 60, uint32(4), uint32(8), runtime.NumCPU()
+	var tables []string
+	for _, a := range args[1:] {
+		switch {
+		case strings.HasPrefix(a, "batch="):
+			batch, _ = strconv.Atoi(a[6:])
+		case strings.HasPrefix(a, "litshare="):
+			x, _ := strconv.Atoi(a[9:])
+			litShare = uint32(x)
+		case strings.HasPrefix(a, "failshare="):
+			x, _ := strconv.Atoi(a[10:])
+			failShare = uint32(x)
+		case strings.HasPrefix(a, "workers="):
+			workers, _ = strconv.Atoi(a[8:])
+		default:
+			tables = append(tables, a)
+		}
+	}
+	var rows []*gRow
+	for _, t := range tables {
+		err := readRows(t, func(raw []byte) {
+			if strings.HasPrefix(string(raw), `{"alphabet"`) {
+				var a struct {
+					Alphabet map[string]symFacts `json:"alphabet"`
+				}
+				if err := json.Unmarshal(raw, &a); err != nil {
+					util.Die("alphabet row: %v", err)
+				}
+				if gAlpha == nil {
+					gAlpha = a.Alphabet
+					validateAlphabet(gAlpha)
+				}
+				return
+			}
+			var r gRow
+			if err := json.Unmarshal(raw, &r); err != nil {
+				util.Die("bad table row: %v: %s", err, clip(string(raw), 300))
+			}
+			if r.Ix == nil || r.Sl == nil {
+				util.Die("table row without predictions: %s", clip(string(raw), 300))
+			}
+			sort.Slice(r.Nd, func(i, j int) bool { return r.Nd[i].N < r.Nd[j].N })
+			rows = append(rows, &r)
+		})
+		if err != nil {
+			util.Die("reading %s: %v", t, err)
+		}
+	}
+	if gAlpha == nil {
+		util.Die("no alphabet row in the tables")
+	}
+	// 0. the model agrees with the reference libraries on every row
+	valid := true
+	for _, r := range rows {
+		if !validateRow(r) {
+			valid = false
+		}
+	}
+	if !valid {
+		gOut.Write(map[string]any{"summary": true, "rows": len(rows), "invalid": true})
+		return
+	}
+	// 1. direct calls, every row
+	var wg sync.WaitGroup
+	ch := make(chan *gRow, 256)
+	for i := 0; i < workers; i++ {
+		wg.Add(1)
+		go func() {
+			defer wg.Done()
+			w := newAPIWorker()
+			for r := range ch {
+				w.checkRow(r)
+			}
+		}()
+	}
+	for _, r := range rows {
+		ch <- r
+	}
+	close(ch)
+	wg.Wait()
+	// 2. scripts: arguments path on every row and both engines; literal paths on a hash-selected share
+	type job struct {
+		rows []*gRow
+		path string
+		vm   bool
+	}
+	var jobs []job
+	for i := 0; i < len(rows); i += batch {
+		e := i + batch
+		if e > len(rows) {
+			e = len(rows)
+		}
+		jobs = append(jobs, job{rows[i:e], "args", false}, job{rows[i:e], "args", true})
+	}
+	var litRows [2][]*gRow
+	for _, r := range rows {
+		h := fnv.New32a()
+		h.Write([]byte(r.Al + "/" + r.S))
+		x := h.Sum32()
+		if litShare <= 1 || x%litShare == 0 {
+			litRows[(x/7)%2] = append(litRows[(x/7)%2], r)
+		}
+	}
+	nLit := 0
+	for k, path := range []string{"lit-esc", "lit-raw"} {
+		lr := litRows[k]
+		nLit += len(lr)
+		for i := 0; i < len(lr); i += batch {
+			e := i + batch
+			if e > len(lr) {
+				e = len(lr)
+			}
+			jobs = append(jobs, job{lr[i:e], path, false}, job{lr[i:e], path, true})
+		}
+	}
+	util.Parallel(len(jobs), workers, func(i int) { runBatch(jobs[i].rows, jobs[i].path, jobs[i].vm) })
+	// 3. predicted failures, one script each
+	util.Parallel(len(rows), workers, func(i int) { runFailing(rows[i], failShare) })
+	// 4. ordering of all ranked pairs
+	var ranked []*gRow
+	for _, r := range rows {
+		if r.Rk >= 0 {
+			ranked = append(ranked, r)
+		}
+	}
+	pairs := checkRanks(ranked)
+
+	// coverage figures
+	values := map[string]bool{}
+	cases := map[string]bool{}
+	nontrivial := map[string]bool{}
+	mis := map[string]bool{}
+	unnorm := 0
+	needles := 0
+	for _, r := range rows {
+		values[r.V] = true
+		if r.S != r.V {
+			unnorm++
+		}
+		for i := range r.Nd {
+			nd := &r.Nd[i]
+			needles++
+			key := r.V + "/" + nd.Nv
+			cases[key] = true
+			if shapeOf(r, nd) != "plain" {
+				nontrivial[key] = true
+			}
+			if misaligned(r, nd) {
+				mis[key] = true
+			}
+		}
+	}
+	gOut.Write(map[string]any{"summary": true, "rows": len(rows), "needle_rows": needles, "distinct_values": len(values),
+		"distinct_cases": len(cases), "nontrivial": len(nontrivial), "misaligned": len(mis), "sources_not_normalized": unnorm,
+		"go_evals": atomic.LoadInt64(&nGo), "cadence_evals": atomic.LoadInt64(&nCad), "literal_rows": nLit,
+		"ranked_strings": len(ranked), "ranked_pairs": pairs, "failures": atomic.LoadInt64(&nFails),
+		"empty_needle_conventions": emptyConventions(rows)})
+	_ = os.Stdout
+}
